@@ -996,7 +996,7 @@ pub fn gen_flow(rng: &mut Rng, f: &GenFn, walks: u64, scale: u64) -> Vec<u64> {
     for _ in 0..walks {
         // a walk passes an arc at most ~40 times: stay inside u64
         let top = cnt.iter().copied().max().unwrap_or(0);
-        if top.checked_add(scale.saturating_mul(48)).is_none() {
+        if scale.checked_mul(48).and_then(|x| top.checked_add(x)).is_none() {
             break;
         }
         let mut b = 0u32;
